@@ -4,6 +4,7 @@ import (
 	"fmt"
 	"strings"
 
+	"verifharness/asmsys"
 	"verifharness/vh"
 )
 
@@ -98,6 +99,8 @@ func genInj(g *vh.Gen, store string, adds map[string]int, names []string, period
 }
 
 func gen(g *vh.Gen) {
+	// the assembled system (server.FullAssembly + Services.Start), one child process per case
+	asmsys.Gen(g, "asm12")
 	// undisturbed scans: every age distribution × period × store
 	for i := 0; i < g.N(100, 2500); i++ {
 		p := periods[g.Intn(len(periods))]
